@@ -163,6 +163,9 @@ type Exec struct {
 	// Failures recorded by oracles during the execution.
 	Failures []string
 	Leftover int // goroutines that could not be killed at the end
+	// Outcome is the scenario's classification of what happened (for counting
+	// distinct behaviours); Sample is an optional human-readable rendering.
+	Outcome string
 }
 
 var cur atomic.Pointer[Exec]
